@@ -154,7 +154,10 @@ Print Assumptions presentation_rounding_error.
      discounts / charges are fixed amounts, rate x quantity charges, or percentages (with or
      without base) of at most 100% either way; document discounts / charges fixed or such
      percentages; every tax
-     percentage and surcharge lies between 0% and 100%.  Quantities, prices, amounts and bases are
+     percentage and surcharge lies between 0% and 100%; a supplied totals.rounding is written with
+     no more decimals than the currency (rounding_ok: with more it is presented at the currency's
+     decimals - one of the documented rounding points - and that figure is what payable adds, so
+     payable can be a full unit from the unrounded sum: supplied_rounding_with_extra_decimals_refuted).  Quantities, prices, amounts and bases are
      arbitrary (any sign, any decimals); taxes may be included in prices, retained, carry
      surcharges; any currency precision c.
    The error is counted in eps c = half a unit of the (c+2)-th decimal = 1/200 minor unit:
@@ -207,6 +210,17 @@ Theorem precise_error_bound d t : simple_doc d -> b_due d < 100 -> calculate d =
     obound (fun e => e < u) (t_due t) (i_due y).
 Proof. exact (IdealBoundProofs.precise_error_bound d t). Qed.
 Print Assumptions precise_error_bound.
+
+(* why the class asks for a totals.rounding of no more decimals than the currency: 1 x 10.005 with
+   rounding 0.005 presents rounding 0.01 and payable 10.02, unrounded 10.01 *)
+Theorem supplied_rounding_with_extra_decimals_refuted :
+  exists d t y, simple_docb (mkDoc (d_c d) (d_currency_rule d) (d_pit d) (d_cur d) (d_lines d) (d_discounts d)
+                                     (d_charges d) (d_rates d) (d_advances d) (d_dues d) None) = true /\
+    (budget d < 100)%Z /\ calculate d = Totals t /\ exact d = Some y /\
+    t_rounding t = Some (mkA 1 2) /\
+    unitQ (d_c d) <= Qabs (toQ (t_payable t) - i_payable y).
+Proof. exact IdealBoundProofs.precise_error_bound_supplied_rounding_refuted. Qed.
+Print Assumptions supplied_rounding_with_extra_decimals_refuted.
 
 (* the class is decidable: simple_docb (Calc/IdealClass.v) is the boolean the check evaluates, by
    extraction, on every generated document, together with budget d = ceiling (b_due d); inside
